@@ -182,13 +182,56 @@ let conv_file (x : sexp) : lfile =
     { lf = f; lbase = atom_int base; llines = Array.of_list (List.map atom_int lines); lname = name }
   | _ -> failwith "bad file"
 
+(* rich type terms of method signatures *)
+let rec conv_rty (x : sexp) : tyt =
+  match x with
+  | L [A "B"; Q k; Q n] -> YBasic (cs k, cs n)
+  | L [A "N"; A "_"; Q n] -> YNamed (None, cs n)
+  | L [A "N"; Q p; Q n] -> YNamed (Some (cs p), cs n)
+  | L [A "P"; e] -> YPtr (conv_rty e)
+  | L [A "S"; e; Q pr] -> YSlice (conv_rty e, cs pr)
+  | L [A "R"; n; e; Q pr] -> YArray (z_of_int (atom_int n), conv_rty e, cs pr)
+  | L [A "M"; k; v; Q pr] -> YMap (conv_rty k, conv_rty v, cs pr)
+  | L [A "C"; Q d; e; Q pr] -> YChan (cs d, conv_rty e, cs pr)
+  | L [A "F"; sg; Q pr] -> let (v, ps, rs) = conv_sig_parts sg in YFunc (ps, rs, v, cs pr)
+  | L [A "T"; L fields; Q pr] ->
+    let fs = List.map (function L [A "f"; Q n; e; t; Q tag] -> (((cs n, atom_int e = 1), cs tag), conv_rty t) | _ -> failwith "bad field") fields in
+    YStruct (List.map fst fs, List.map snd fs, cs pr)
+  | L [A "I"; L ms; Q pr] ->
+    let l = List.map (function L [A "m"; Q n; t] -> (cs n, conv_rty t) | _ -> failwith "bad iface method") ms in
+    YIface (List.map fst l, List.map snd l, cs pr)
+  | L [A "A"; Q pr; r] -> YAlias (cs pr, conv_rty r)
+  | L [A "O"; Q pr] -> YOpaque (cs pr)
+  | _ -> failwith "bad type term"
+and conv_sig_parts (x : sexp) : bool * tyt list * tyt list =
+  match x with
+  | L [A "sig"; v; L ps; L rs] -> (atom_int v = 1, List.map conv_rty ps, List.map conv_rty rs)
+  | _ -> failwith "bad sig"
+
+let conv_sig (x : sexp) : sig0 =
+  let (v, ps, rs) = conv_sig_parts x in { s_params = ps; s_results = rs; s_variadic = v }
+
+let conv_typetable (items : sexp list) : typetable =
+  let ifaces = List.filter_map (function
+      | L (A "iface" :: Q p :: Q n :: ms) ->
+        Some { id_pkg = cs p; id_name = cs n;
+               id_methods = List.map (function L [A "m"; Q mn; sg] -> { im_name = cs mn; im_sig = conv_sig sg } | _ -> failwith "bad imethod") ms }
+      | _ -> None) items in
+  let tds = List.filter_map (function
+      | L (A "tdecl" :: Q n :: ms) ->
+        Some { td_name = cs n;
+               td_methods = List.map (function L [A "m"; Q mn; sg; v] -> { tm_name = cs mn; tm_sig = conv_sig sg; tm_value = (atom_int v = 1) } | _ -> failwith "bad tmethod") ms }
+      | _ -> None) items in
+  { tt_ifaces = ifaces; tt_types = tds }
+
 let conv_pkg (x : sexp) : lpkg =
   match x with
-  | L [A "pkg"; Q id; Q path; Q name; L (A "imports" :: imps); L (A "files" :: files)] ->
+  | L (A "pkg" :: Q id :: Q path :: Q name :: L (A "imports" :: imps) :: L (A "files" :: files) :: rest) ->
     let imps = List.map (function L [Q p; Q i] -> (p, i) | _ -> failwith "bad pkg import") imps in
     let lfiles = List.map conv_file files in
+    let tt = match rest with [L (A "types" :: items)] -> conv_typetable items | _ -> { tt_ifaces = []; tt_types = [] } in
     { lid = id; limports = imps; lfiles;
-      lpkg = { p_path = cs path; p_name = cs name; p_files = List.map (fun l -> l.lf) lfiles; p_imports = List.map (fun (p, _) -> cs p) imps } }
+      lpkg = { p_path = cs path; p_name = cs name; p_files = List.map (fun l -> l.lf) lfiles; p_imports = List.map (fun (p, _) -> cs p) imps; p_types = tt } }
   | _ -> failwith "bad pkg"
 
 let read_file (path : string) : string =
